@@ -246,6 +246,7 @@ type c19Res struct {
 	RPort   int    `json:"r_port,omitempty"`
 	Status  int    `json:"http_status,omitempty"`
 	Skipped string `json:"skipped,omitempty"`
+	Faulted bool   `json:"fault_injected,omitempty"` // a storage operation of this call was made to fail (single fault)
 	Gone    bool   `json:"mapping_gone,omitempty"` // update: the mapping record of the referenced claim does not exist
 }
 
@@ -400,6 +401,14 @@ func c19Audit(results []c19Res) *c19Truth {
 	byNo := map[int]*c19Claim{}
 	idCount := map[string]int{}
 	for _, r := range results {
+		if r.Ran && r.Faulted && r.Op.K == "delete" {
+			// an owner's delete hit by a storage fault may have been applied partly or not
+			// at all, whatever it returned: either outcome is accepted from here on
+			if c := byNo[r.Op.Ref]; c != nil && r.Op.C == c.Client && !c.Deleted {
+				c.MaybeGone = true
+			}
+			continue
+		}
 		if !r.Ran || !r.OK {
 			continue
 		}
@@ -420,7 +429,9 @@ func c19Audit(results []c19Res) *c19Truth {
 			if c == nil {
 				continue
 			}
-			c.MaybeGone = false // the record was there to be updated
+			if !r.Faulted {
+				c.MaybeGone = false // the record was there to be updated
+			}
 			switch r.Op.Upd {
 			case "port":
 				c.Port = c19UpdatePort(r.Op.No)
